@@ -228,10 +228,32 @@ def selftest(ctx):
         raise vlib.Inconclusive("exposure scanner self-test: false positive")
 
 
+def process_exposure(ctx):
+    """process level: the real binary is driven from the distinctive client address 127.0.0.77 (TCP handshakes and UDP
+    datagrams on every listener of TLC-generated configurations, with reloads); after every measurement round the text
+    served by its /metrics endpoint (all registered collectors, including the Go runtime ones) is scanned for the
+    client's IP and ports by the driver; TLC (ReloadTrace) flags `client-exposed`."""
+    from checks import rl_common
+    behs = rl_common.gen_scenarios(ctx, "Gen_Reload.cfg", 30, ctx.seed + 5)
+    pb = [b for b in behs if b and b[0]["a"] == "Load" and b[0]["ok"]][:6 if ctx.quick else 60]
+    if not pb:
+        ctx.cov["skipped"].append("process-level exposure: no usable scenario")
+        return
+    sc = [{"id": i + 1, "replay": 0, "steps": b} for i, b in enumerate(pb)]
+    tf = rl_common.run_process(ctx, sc, "proc-c20", timeout=1500)
+    n = sum(1 for r in vlib.read_ndjson(tf) if r.get("ev") == "Exposition")
+    rl_common.judge(ctx, tf, "process level: /metrics of the real binary", "C20",
+                    {"client-exposed": "the text served by /metrics contains the client's IP address or port"},
+                    only={"client-exposed"})
+    ctx.cov["evaluations"] += n
+    ctx.cov["process_level_expositions"] = n
+
+
 def run(ctx):
     selftest(ctx)
     nrows, ncalls = table_binding(ctx)
     nscan = exposure(ctx)
+    process_exposure(ctx)
     vlib.write_evidence(ctx, "model_checking",
                         "TLC enumerates the complete decision table of LocationLabel.tla (states/transitions); every row "
                         "is executed on the real ipinfo functions (label_calls concrete calls; traces_validated counts "
